@@ -87,7 +87,7 @@ pub fn check_stream(ls: &LangSet, code: &str, toks: &[crate::api::IdTok], recase
 
 pub fn run(ctx: &Ctx) -> Outcome {
     let n_texts = ctx.n(600_000, 12_000_000);
-    let rep = run_sharded(ctx, |w, nw, rep| {
+    let mut rep = run_sharded(ctx, |w, nw, rep| {
         let ls = LangSet::new();
         let mut rng = Rng::derive(ctx.seed, "C11", w as u64);
         for i in 0..(n_texts / nw as u64) {
@@ -142,6 +142,9 @@ pub fn run(ctx: &Ctx) -> Outcome {
             }
         }
     });
+    if !ctx.quick() {
+        super::legs::fuzz_leg(ctx, &mut rep, 45);
+    }
     let rule = "cases = (text, recased text): texts from hostile text, annotator-state templates and lower-case sentences rich in linking words between small numbers; recasing = all upper / capitalised / per-character random, applied only to characters whose upper-then-lower mapping returns to themselves; compared: validation result, token count, occurrences tuple for tuple at thresholds 0,3,10,inf, and the rewrite of the recased text against the splice of its own tokens; a quarter of the cases are hinted caller-token streams (not-a-number and separation hints kept on the same tokens) compared before/after recasing; non-trivial = recasing changed the text and at least one number was recognised";
     finish(ctx, rep, rule, &["texts whose whole-string lowercase differs after recasing (context-dependent mappings such as final sigma) are outside the quantifier and skipped"], vec![])
 }
